@@ -107,6 +107,8 @@ pub struct MonA {
     pub debt_forced: bool,
     pub revived_total: u64,
     pub pace: crate::pace::Pace,
+    /// objects allocated by callbacks while the arena was Sweeping (current sweep only)
+    pub sweep_born: BTreeSet<Id>,
 }
 
 pub struct Exec {
@@ -131,6 +133,8 @@ pub struct Exec {
     pub cfg_check_traverse_every: bool,
     /// trace events observed per op index (fault enumeration)
     pub op_events: BTreeMap<usize, u64>,
+    /// ids destructed or released during the last drain
+    pub last_gone: Vec<Id>,
 }
 
 pub const EPS: f64 = 1e-3;
@@ -160,6 +164,7 @@ impl Exec {
             inconclusive: None,
             cfg_check_traverse_every: true,
             op_events: BTreeMap::new(),
+            last_gone: Vec::new(),
         }
     }
 
@@ -185,7 +190,9 @@ impl Exec {
         let mut evs: Vec<Ev> = Vec::new();
         track::drain_events(|e| evs.push(e));
 
+        self.last_gone.clear();
         for e in drops {
+            self.last_gone.push(e.id);
             let Some(o) = self.w.objs.get_mut(&e.id) else {
                 continue; // not an arena object of this history (e.g. layout tokens)
             };
@@ -202,6 +209,7 @@ impl Exec {
         for e in evs {
             match e {
                 Ev::GcFree { id, ctx } => {
+                    self.last_gone.push(id);
                     let Some(o) = self.w.objs.get_mut(&id) else { continue };
                     if o.freed {
                         let m = format!("block of object {} released twice", id);
@@ -393,6 +401,8 @@ impl Exec {
         let arith = msg.contains("overflow") || msg.contains("underflow");
         if arith {
             self.viol("C10", "M-metrics", format!("{}: arithmetic fault inside the library: '{}' at {}", site, msg, loc));
+        } else if msg.contains("slot") || msg.contains("DynamicRoot") || msg.contains("mismatched root set") {
+            self.viol("C14", "M-roots", format!("{}: panic '{}' at {}", site, msg, loc));
         } else if site.starts_with("callback") {
             self.viol("C06", "M-panic", format!("{}: unexpected panic '{}' at {}", site, msg, loc));
         } else if site.starts_with("start_sweeping") {
